@@ -598,8 +598,10 @@ fn bad(q: &Seq, k: usize) -> bool {
 
 /// May this sequence hang / panic / end in an error (then it runs alone, not in a batch)?
 fn risky(q: &Seq) -> bool {
+    // since the D8 fix a caught force always returns; only an uncaught force of a failing lazy can end
+    // the program (error on the main thread, or a dead coroutine that panics when resumed again)
     let any_bad = (0..NLAZY).any(|k| bad(q, k));
-    let forces = |v: &Vec<Op>| v.iter().any(|o| matches!(o, Op::Force(_) | Op::ForceU(_)));
+    let forces = |v: &Vec<Op>| v.iter().any(|o| matches!(o, Op::ForceU(_)));
     any_bad && (forces(&q.main) || forces(&q.b1) || forces(&q.b2))
 }
 
@@ -770,10 +772,47 @@ fn enumerate_single(n: usize, lazies: &[TExpr], out: &mut Vec<Seq>) {
     }
 }
 
+/// All main-thread sequences of exactly `n` operations over the given sub-alphabet (symbol numbers as in
+/// `enumerate_single`: 0/1 send, 2/3 recv, 4/5 load, 6/7 store, 8+k force k).
+fn enumerate_syms(n: usize, syms: &[usize], lazies: &[TExpr], out: &mut Vec<Seq>) {
+    let mut idx = vec![0usize; n];
+    loop {
+        let mut v = 10;
+        let mut main = vec![];
+        for &i in &idx {
+            v += 1;
+            main.push(match syms[i] {
+                0 => Op::Send(0, v),
+                1 => Op::Send(1, v),
+                2 => Op::Recv(0),
+                3 => Op::Recv(1),
+                4 => Op::Load(0),
+                5 => Op::Load(1),
+                6 => Op::Store(0, v),
+                7 => Op::Store(1, v),
+                k => Op::Force(k - 8),
+            });
+        }
+        out.push(Seq { lazies: lazies.to_vec(), cells: [100, 200], b1: vec![], b2: vec![], main });
+        let mut k = 0;
+        while k < n {
+            idx[k] += 1;
+            if idx[k] < syms.len() {
+                break;
+            }
+            idx[k] = 0;
+            k += 1;
+        }
+        if k == n {
+            break;
+        }
+    }
+}
+
 /// All two-thread schedules: main = interleavings of `resume 1` with operations, body 1 fixed shapes.
 /// Enumerates every (main, b1) with |main| + |b1| = n over the small alphabet
 /// {send 0, recv 0, force 0, force-outside-catch 0, resume 1 / yield}.
-fn enumerate_threads(n: usize, lazy0: &TExpr, out: &mut Vec<Seq>) {
+fn enumerate_threads(n: usize, syms: &[usize], lazy0: &TExpr, out: &mut Vec<Seq>) {
     for n1 in 1..n {
         let nm = n - n1;
         let mut idx = vec![0usize; n];
@@ -781,7 +820,7 @@ fn enumerate_threads(n: usize, lazy0: &TExpr, out: &mut Vec<Seq>) {
             let mut v = 10;
             let mk = |i: usize, t: usize, v: &mut i64| {
                 *v += 1;
-                match i {
+                match syms[i] {
                     0 => Op::Send(0, *v),
                     1 => Op::Recv(0),
                     2 => Op::Force(0),
@@ -803,7 +842,7 @@ fn enumerate_threads(n: usize, lazy0: &TExpr, out: &mut Vec<Seq>) {
             let mut k = 0;
             while k < n {
                 idx[k] += 1;
-                if idx[k] < 5 {
+                if idx[k] < syms.len() {
                     break;
                 }
                 idx[k] = 0;
@@ -976,7 +1015,7 @@ fn main() {
             }
         }
     }
-    let exh_single = if thorough { 4 } else { 3 };
+    let exh_single = if thorough { 5 } else { 4 };
     let exh_threads = if thorough { 5 } else { 4 };
     {
         let mut v = vec![];
@@ -999,20 +1038,74 @@ fn main() {
         }
         let mut v = vec![];
         for n in 2..=exh_threads {
-            enumerate_threads(n, &TExpr::Val(7), &mut v);
+            enumerate_threads(n, &[0, 1, 2, 3, 4], &TExpr::Val(7), &mut v);
         }
         for n in 2..=(exh_threads - 1) {
             let mut w = vec![];
-            enumerate_threads(n, &TExpr::Boom, &mut w);
+            enumerate_threads(n, &[0, 1, 2, 3, 4], &TExpr::Boom, &mut w);
             v.extend(w.into_iter().filter(|q| q.main.iter().chain(q.b1.iter()).any(|o| matches!(o, Op::Force(_) | Op::ForceU(_)))));
             let mut w = vec![];
-            enumerate_threads(n, &TExpr::Add(0, 1), &mut w);
+            enumerate_threads(n, &[0, 1, 2, 3, 4], &TExpr::Add(0, 1), &mut w);
             v.extend(w.into_iter().filter(|q| q.main.iter().chain(q.b1.iter()).any(|o| matches!(o, Op::Force(_) | Op::ForceU(_)))));
         }
         for q in v {
             seqs.push((q, "exh-threads"));
         }
     }
+    // narrower alphabets, longer sequences
+    let (len_chan1, len_chan2, len_cells, len_lazy, len_thr_chan) = if thorough { (10, 7, 6, 5, 7) } else { (8, 6, 5, 4, 6) };
+    {
+        let mut v = vec![];
+        for n in (exh_single + 1)..=len_chan1 {
+            enumerate_syms(n, &[0, 2], &[], &mut v); // one channel: send / recv
+        }
+        for n in (exh_single + 1)..=len_chan2 {
+            enumerate_syms(n, &[0, 1, 2, 3], &[], &mut v); // two channels
+        }
+        for q in v {
+            seqs.push((q, "exh-channels"));
+        }
+        let mut v = vec![];
+        for n in (exh_single + 1)..=len_cells {
+            enumerate_syms(n, &[4, 5, 6, 7], &[], &mut v);
+        }
+        for q in v {
+            seqs.push((q, "exh-cells"));
+        }
+        // lazies only: every force sequence over representative dependency shapes
+        let lazy_sets: Vec<Vec<TExpr>> = vec![
+            vec![TExpr::Val(5), TExpr::Add(0, 1), TExpr::Add(1, 2)],  // chain of good ones
+            vec![TExpr::Boom, TExpr::Add(0, 1), TExpr::Add(1, 2)],    // chain onto a failing one
+            vec![TExpr::Add(0, 1), TExpr::Add(0, 2), TExpr::Val(3)],  // self-dependent + dependant
+            vec![TExpr::Add(1, 1), TExpr::Add(2, 2), TExpr::Add(0, 3)], // 3-cycle
+            vec![TExpr::Add(1, 1), TExpr::Add(0, 2), TExpr::Boom],    // 2-cycle + failing
+            vec![TExpr::Add(2, 1), TExpr::Add(2, 2), TExpr::Val(9)],  // diamond onto a good one
+            vec![TExpr::Add(2, 1), TExpr::Add(2, 2), TExpr::Boom],    // diamond onto a failing one
+            vec![TExpr::Add(1, 1), TExpr::Add(1, 2), TExpr::Val(4)],  // depends on a self-dependent one
+        ];
+        let mut v = vec![];
+        for lz in &lazy_sets {
+            for n in 1..=len_lazy {
+                enumerate_syms(n, &[8, 9, 10], lz, &mut v);
+            }
+        }
+        for q in v {
+            seqs.push((q, "exh-lazies"));
+        }
+        // two threads, one channel: {send 0, recv 0, resume 1 / yield}
+        let mut v = vec![];
+        for n in 2..=len_thr_chan {
+            enumerate_threads(n, &[0, 1, 3], &TExpr::Val(7), &mut v);
+        }
+        for q in v {
+            seqs.push((q, "exh-thread-channel"));
+        }
+    }
+    out.stats.insert("exhaustive_one_channel_up_to_ops".into(), (len_chan1 as u64).into());
+    out.stats.insert("exhaustive_two_channels_up_to_ops".into(), (len_chan2 as u64).into());
+    out.stats.insert("exhaustive_cells_up_to_ops".into(), (len_cells as u64).into());
+    out.stats.insert("exhaustive_lazies_up_to_forces".into(), (len_lazy as u64).into());
+    out.stats.insert("exhaustive_two_thread_one_channel_up_to_ops".into(), (len_thr_chan as u64).into());
     out.stats.insert("exhaustive_single_thread_up_to_ops".into(), (exh_single as u64).into());
     out.stats.insert("exhaustive_two_thread_up_to_ops".into(), (exh_threads as u64).into());
     let n_rand = if thorough { 30000 } else { 2500 };
@@ -1023,7 +1116,7 @@ fn main() {
     }
 
     // ---- group into programs: safe sequences are batched, risky ones run alone
-    let batch = 12;
+    let batch = 20;
     let mut programs: Vec<Vec<usize>> = vec![];
     let mut cur: Vec<usize> = vec![];
     for (i, (q, _)) in seqs.iter().enumerate() {
